@@ -11,7 +11,7 @@ IMP_NOTE = ('Trusted: Coq kernel; extraction; pgsem; the Go harness. Model Ledge
 
 PROPS['C11'] = dict(
     target='Props/C11',
-    theorems=['C11_roundtrip', 'C11_tx_core_fields', 'C11_av_fields', 'C11_roundtrip_moves', 'C11_roundtrip_accounts_partial', 'C11_roundtrip_tables_partial', 'C11_hashes_roundtrip', 'C11_hash_check_sound', 'C11_writable_single', 'C11_resync_above', 'C11_refuted_first_usage', 'C11_refuted_updated_at',
+    theorems=['C11_roundtrip', 'C11_tx_core_fields', 'C11_av_fields', 'C11_roundtrip_moves', 'C11_roundtrip_accounts_partial', 'C11_roundtrip_tables_partial', 'C11_hashes_roundtrip', 'C11_hash_check_sound', 'C11_writable_single', 'C11_resync_above', 'C11_first_usage_example', 'C11_refuted_updated_at',
               'C11_writable_atomic', 'C11_atomic_after_import_next_ids', 'C11_atomic_after_import_log_order', 'C11_unrepaired_atomic_writable', 'C11_unrepaired_atomic_log_id'],
     ties=[dict(name='TIE-D importx', vh='importx', model='importx', n=dict(quick=400, thorough=10000), kinds=['C11'], case_head='importx', timeout=dict(quick=600, thorough=6000))],
     rule=IMP_RULE,
@@ -20,7 +20,7 @@ PROPS['C11'] = dict(
                 'timestamps, references, inserted_at, updated_at, reverted_at, post-commit volumes), the transaction metadata history, the logs, the hash column and, of every account row, address, current metadata and insertion date. Under hypotheses: moves table + effective volumes when the history has no dry run or MOVES_HISTORY is off '
                 '(C11_roundtrip_moves; otherwise only moves.seq is renumbered, compared modulo seq by the tie); first usage / updated_at of accounts (the whole accounts table) + account metadata history when the history has no SET/DELETE_METADATA on accounts '
                 '(C11_roundtrip_accounts_partial); all tables identical under both (C11_roundtrip_tables_partial). FULL statement REFUTED without the accounts hypothesis, confirmed on the real stack (known_findings.d/import.json): '
-                'SET_METADATA on an account lowers first_usage to the log date (C11_refuted_first_usage), DELETE_METADATA on an account is dated at the import in updated_at and in the metadata history (C11_refuted_updated_at). '
+                'SET_METADATA on an account: since the repairs 2a129a1/a33853d the import IS the write dated at the log (ImportSim.imp_acc_set_is_write, C11_first_usage_example); DELETE_METADATA on an account is dated at the import in updated_at and in the metadata history (C11_refuted_updated_at). '
                 'Writability: first committed facade write flips the state and draws log id = max+1 and transaction id = max+1 (C11_writable_single; bulk elements are such writes); the ATOMIC bulk follows the same protocol since the repair fixes/01-facade-begintx (C11_writable_atomic: a one-element atomic bulk IS the facade write). '
                 'Before the repair (S-11, confirmed on the real stack, finding fixed): never-resynchronised sequences, primary-key collision -> nil dereference in InsertTransaction / runLog, or a log id below the imported ones (C11_unrepaired_atomic_writable, C11_unrepaired_atomic_log_id).',
     trusted=IMP_TRUST,
